@@ -232,6 +232,20 @@ class C09(EngineProp):
                         pub_done = any(mm.startswith('PC') or mm.startswith('PE') or (mm.startswith('PN') and mm.endswith(':1')) for i, mm in st if i < idx)
                         if has_pub and not pub_done and not already and ('PX:%d' % oid) not in outs:
                             fails.append({'signature': 'producer-survives-peer-cancel:' + kind, 'what': 'CANCEL received for stream %d but the publisher of %s %d was not cancelled' % (sid, kind, oid)})
+        # the CANCEL must reach the peer after the request it cancels (otherwise the peer drops it as "unknown stream" and then starts the producer):
+        # judged on the order in which frames actually reached Transport.send_frame
+        wire = (obs.get('final') or {}).get('wire')
+        if wire:
+            first_req, first_cancel = {}, {}
+            for idx, t in enumerate(wire):
+                f = parse_send(t)
+                if f['ty'] in ('REQUEST_RESPONSE', 'REQUEST_STREAM', 'REQUEST_CHANNEL'):
+                    first_req.setdefault(f['sid'], idx)
+                elif f['ty'] == 'CANCEL':
+                    first_cancel.setdefault(f['sid'], idx)
+            for sid, ic in first_cancel.items():
+                if sid in first_req and ic < first_req[sid]:
+                    fails.append({'signature': 'cancel-overtakes-request', 'what': 'CANCEL for stream %d reached the transport (wire position %d) before the request frame of that stream (position %d): the peer drops it and its producer is never cancelled' % (sid, ic, first_req[sid])})
         return fails
 
 
